@@ -99,9 +99,17 @@ func rulesC09(c *Ctx) {
 				}
 			}
 		}
+		allowedWriter := map[string]bool{}
+		for _, k := range []string{"mint.LoadMint", "mint.(*Mint).RotateKeyset"} {
+			if f := c.P.Func(k); f != nil {
+				for _, g := range c.OpFuncs(f) {
+					allowedWriter[c.P.FuncKey(g)] = true
+				}
+			}
+		}
 		okW := len(writers) > 0
 		for _, w := range writers {
-			if w != "mint.LoadMint" && w != "mint.(*Mint).RotateKeyset" {
+			if w != "mint.LoadMint" && w != "mint.(*Mint).RotateKeyset" && !allowedWriter[w] {
 				okW = false
 			}
 		}
@@ -312,14 +320,14 @@ func (c *Ctx) ruleKeysetWiring(rule string) {
 			return true
 		}
 		nFirst, nReload := 0, 0
-		for _, ci := range Calls(load) {
+		for _, ci := range c.opCalls(load) {
 			d := c.P.Describe(ci)
 			if d.Name != fnGenKeyset {
 				continue
 			}
 			args := make([]*Ex, len(d.Args))
 			for i, a := range d.Args {
-				args[i] = o.Of(a)
+				args[i] = c.CtxOf(ci).Of(a)
 			}
 			pos := c.P.InstrPos(ci)
 			if !isMaster(args[0], seedOK) {
@@ -337,15 +345,15 @@ func (c *Ctx) ruleKeysetWiring(rule string) {
 					}
 					return (strings.HasSuffix(ft.A.S, ".GetSeed") && ft.A.Idx == 1) || (strings.HasSuffix(ft.A.S, ".SaveSeed") && isCallSuffix(arg(ft.A, 1), "hdkeychain.GenerateSeed"))
 				}}
-				okS, why := o.Requires(ci, saved)
+				okS, why := c.RequireAt(ci, saved)
 				R.Check(rule, fk, "seed persisted before keys are derived from it", pos, okS, "a freshly generated seed is saved before any key is derived", why)
 				// persisted row
-				k := o.Of(ci.(ssa.Value))
+				k := c.CtxOf(ci).Of(ci.(ssa.Value))
 				kv := &Ex{K: "call", S: k.S, Args: k.Args, Call: k.Call, Idx: 0}
-				for _, sc := range Calls(load) {
+				for _, sc := range c.opCalls(load) {
 					sd := c.P.Describe(sc)
 					if strings.HasSuffix(sd.Name, ".SaveKeyset") {
-						okR, whyR := rowOK(o.Of(sd.Args[0]), kv, seedOK)
+						okR, whyR := rowOK(c.CtxOf(sc).Of(sd.Args[0]), kv, seedOK)
 						R.Check(rule, fk, "first start: persisted row = generated keyset", c.P.InstrPos(sc), okR, "the row saved for the first keyset carries the generated id, unit, index, fee and the seed", whyR)
 						for _, r := range o.SuccessReturns() {
 							_ = r
@@ -375,7 +383,7 @@ func (c *Ctx) ruleKeysetWiring(rule string) {
 		recv := coreRecv(rot)
 		seedOK := func(e *Ex) bool { return isCallSuffix(e, ".GetSeed") && e.Idx == 0 }
 		var gen ssa.CallInstruction
-		for _, ci := range Calls(rot) {
+		for _, ci := range c.opCalls(rot) {
 			if c.P.Describe(ci).Name == fnGenKeyset {
 				gen = ci
 			}
@@ -384,14 +392,15 @@ func (c *Ctx) ruleKeysetWiring(rule string) {
 			R.Check(rule, fk, "rotation generates the next keyset", c.P.Pos(rot.Pos()), false, "rotation derives a new keyset", "no call of "+fnGenKeyset)
 		} else {
 			d := c.P.Describe(gen)
-			a0, a1, a2, a3 := o.Of(d.Args[0]), o.Of(d.Args[1]), o.Of(d.Args[2]), o.Of(d.Args[3])
+			gctx := c.CtxOf(gen)
+			a0, a1, a2, a3 := gctx.Of(d.Args[0]), gctx.Of(d.Args[1]), gctx.Of(d.Args[2]), gctx.Of(d.Args[3])
 			okIdx := a1.String() == "("+recv+"."+ak+".DerivationPathIdx + #1)"
 			R.Check(rule, fk, "rotation: index = active index + 1", c.P.InstrPos(gen), okIdx && isMaster(a0, seedOK), "the new keyset uses the next derivation index under the stored seed's master key", short(a1.String(), 120))
 			R.Check(rule, fk, "rotation: fee parameter and active", c.P.InstrPos(gen), a2.K == "param" && isConst(a3, "true"), "the new keyset takes the requested fee and is active", short(a2.String()+" / "+a3.String(), 120))
-			k := o.Of(gen.(ssa.Value))
+			k := gctx.Of(gen.(ssa.Value))
 			kv := &Ex{K: "call", S: k.S, Args: k.Args, Call: k.Call, Idx: 0}
 			var save, deact ssa.CallInstruction
-			for _, ci := range Calls(rot) {
+			for _, ci := range c.opCalls(rot) {
 				dd := c.P.Describe(ci)
 				if m, ok := c.V.IsDBCall(dd); ok {
 					if c.V.HasRole(m, "INSERT keysets") {
@@ -405,22 +414,28 @@ func (c *Ctx) ruleKeysetWiring(rule string) {
 			if save == nil || deact == nil {
 				R.Check(rule, fk, "rotation persists both changes", c.P.Pos(rot.Pos()), false, "rotation marks the old keyset inactive and saves the new one", "storage calls not found")
 			} else {
-				okR, whyR := rowOK(o.Of(c.P.Describe(save).Args[0]), kv, seedOK)
+				okR, whyR := rowOK(c.CtxOf(save).Of(c.P.Describe(save).Args[0]), kv, seedOK)
 				R.Check(rule, fk, "rotation: persisted row = new keyset", c.P.InstrPos(save), okR, "the saved row carries the new keyset's own id, unit, index and fee", whyR)
 				dd := c.P.Describe(deact)
-				okD := o.Of(dd.Args[0]).String() == recv+"."+ak+".Id" && isConst(o.Of(dd.Args[1]), "false")
-				R.Check(rule, fk, "rotation: old keyset marked inactive", c.P.InstrPos(deact), okD, "the previously active keyset is marked inactive in storage", short(o.Of(dd.Args[0]).String(), 100))
+				dctx := c.CtxOf(deact)
+				okD := dctx.Of(dd.Args[0]).String() == recv+"."+ak+".Id" && isConst(dctx.Of(dd.Args[1]), "false")
+				R.Check(rule, fk, "rotation: old keyset marked inactive", c.P.InstrPos(deact), okD, "the previously active keyset is marked inactive in storage", short(dctx.Of(dd.Args[0]).String(), 100))
 				// pointer moves only after the deactivation succeeded
-				deactOK := &Cond{Name: "old keyset marked inactive in storage", Match: func(ft *Fact, _ *Origins) bool {
+				deactOK := &Cond{Name: "old keyset marked inactive in storage", Via: func(g *ssa.Function) bool { return c.P.IsNewFunc(g) }, Match: func(ft *Fact, _ *Origins) bool {
 					return ft.Kind == "errnil" && ft.Pos && ft.A.K == "call" && ft.A.Call == deact
 				}}
-				for _, b := range rot.Blocks {
+				var rotBlocks []*ssa.BasicBlock
+				for _, g := range c.OpFuncs(rot) {
+					rotBlocks = append(rotBlocks, g.Blocks...)
+				}
+				for _, b := range rotBlocks {
 					for _, in := range b.Instrs {
 						if st, ok := in.(*ssa.Store); ok {
 							if fa, ok := st.Addr.(*ssa.FieldAddr); ok && fieldName(fa) == ak {
-								ok2, why := o.Requires(st, deactOK)
+								ok2, why := c.RequireAt(st, deactOK)
 								R.Check(rule, fk, "active pointer moves <= old keyset inactive in storage", c.P.InstrPos(st), ok2, "the active pointer is switched only after storage recorded the deactivation", why)
-								R.Check(rule, fk, "active pointer = new keyset", c.P.InstrPos(st), o.Of(st.Val).String() == kv.String(), "the active pointer is set to the generated keyset", short(o.Of(st.Val).String(), 100))
+								sv := c.CtxOf(st).Of(st.Val)
+								R.Check(rule, fk, "active pointer = new keyset", c.P.InstrPos(st), sv.String() == kv.String(), "the active pointer is set to the generated keyset", short(sv.String(), 100))
 							}
 						}
 					}
@@ -428,6 +443,7 @@ func (c *Ctx) ruleKeysetWiring(rule string) {
 				saveOK := &Cond{Name: "new keyset row saved", Match: func(ft *Fact, _ *Origins) bool {
 					return ft.Kind == "errnil" && ft.Pos && ft.A.K == "call" && ft.A.Call == save
 				}}
+				saveOK.Via = func(g *ssa.Function) bool { return c.P.IsNewFunc(g) }
 				for _, r := range o.SuccessReturns() {
 					ok2, why := o.Requires(r, saveOK)
 					R.Check(rule, fk, "success <= new keyset row saved", c.P.InstrPos(r), ok2, "rotation reports success only after the new keyset row was saved", why)
@@ -436,4 +452,17 @@ func (c *Ctx) ruleKeysetWiring(rule string) {
 		}
 	}
 
+}
+
+// opCalls lists the call instructions of an operation: its own and those of the helpers it calls that are new
+// on this tree (closures are left to the rules that look at them explicitly).
+func (c *Ctx) opCalls(op *ssa.Function) []ssa.CallInstruction {
+	var out []ssa.CallInstruction
+	for _, g := range c.OpFuncs(op) {
+		if g.Parent() != nil {
+			continue
+		}
+		out = append(out, Calls(g)...)
+	}
+	return out
 }
